@@ -702,3 +702,134 @@ func c14FlushOnPush(c *Ctx, htcp *ssa.Function) {
 	}
 	c.Floor(rule, 2, "the PSH flush and the FIN flush of handleTCP")
 }
+
+// c14NextHopOfPeer: "every frame it emits is addressed back to the sender" holds at the link layer as well: the
+// hardware address a reply is sent to is looked up in the ARP cache for the address the reply goes TO – the connection's
+// source (State.SrcIP, iph.Src, bytes 16..19 of the outgoing IP header) – or for the gateway of the route that contains
+// it. A lookup keyed by the connection's own/local address (State.DestIP, iph.Dst, NewState's dest) sends every reply to
+// whoever owns that entry: neighbours on the local segment never see their SYN-ACK.
+func c14NextHopOfPeer(c *Ctx) {
+	p := c.P
+	const rule = "next-hop-of-peer"
+	get := p.Method(canaryRel, "ARPCache", "Get")
+	if !c.Anchor(get != nil, rule, "(canary.ARPCache).Get") {
+		return
+	}
+	// role of an address value: "peer", "local", "gateway", "" (unknown)
+	var roleOf func(v ssa.Value, fn *ssa.Function, depth int) string
+	roleOf = func(v ssa.Value, fn *ssa.Function, depth int) string {
+		if depth > 5 {
+			return ""
+		}
+		v = Unwrap(v)
+		switch x := v.(type) {
+		case *ssa.UnOp:
+			if x.Op != token.MUL {
+				return ""
+			}
+			if fa, ok := x.X.(*ssa.FieldAddr); ok {
+				switch fieldNameOf(fa) {
+				case "SrcIP", "Src":
+					return "peer"
+				case "DestIP", "Dst":
+					return "local"
+				case "Gateway":
+					return "gateway"
+				}
+			}
+			if a, ok := x.X.(*ssa.Alloc); ok {
+				r := ""
+				for _, sv := range StoredValues(a) {
+					r2 := roleOf(sv, fn, depth+1)
+					if r != "" && r2 != r {
+						return ""
+					}
+					r = r2
+				}
+				return r
+			}
+		case *ssa.Call:
+			// net.IPv4(data[16], data[17], data[18], data[19]) of the header just built: its destination
+			if f := x.Call.StaticCallee(); f != nil && FuncIs(f, "net", "IPv4") && len(x.Call.Args) == 4 {
+				idx := []int64{}
+				for _, a := range x.Call.Args {
+					if ld, ok := a.(*ssa.UnOp); ok {
+						if ia, ok := ld.X.(*ssa.IndexAddr); ok {
+							if k, isK := ConstInt(ia.Index); isK {
+								idx = append(idx, k)
+							}
+						}
+					}
+				}
+				if len(idx) == 4 && idx[0] == 16 && idx[3] == 19 {
+					return "peer" // destination of the outgoing header = the connection's source
+				}
+				if len(idx) == 4 && idx[0] == 12 && idx[3] == 15 {
+					return "local"
+				}
+			}
+		case *ssa.Parameter:
+			// what every call site passes
+			idx := paramIdx(x)
+			r := ""
+			n := 0
+			for _, g := range p.FuncsIn(canaryRel) {
+				for _, cl := range Calls(g) {
+					if cl.Common().StaticCallee() != x.Parent() || idx < 0 || idx >= len(cl.Common().Args) {
+						continue
+					}
+					n++
+					r2 := roleOf(cl.Common().Args[idx], g, depth+1)
+					if r2 == "" || (r != "" && r2 != r) {
+						return ""
+					}
+					r = r2
+				}
+			}
+			if n > 0 {
+				return r
+			}
+			// NewState(src, srcPort, dest, dstPort): by position at its call sites this was handled; by name as a last resort
+			switch x.Name() {
+			case "src":
+				return "peer"
+			case "dest", "dst":
+				return "local"
+			}
+		case *ssa.Phi:
+			r := ""
+			for _, e := range x.Edges {
+				r2 := roleOf(e, fn, depth+1)
+				if r != "" && r2 != r {
+					return ""
+				}
+				r = r2
+			}
+			return r
+		}
+		return ""
+	}
+	n := 0
+	for _, fn := range p.FuncsIn(canaryRel) {
+		if fn.Blocks == nil || strings.HasSuffix(p.Fset.Position(fn.Pos()).Filename, "_test.go") {
+			continue
+		}
+		for _, call := range Calls(fn) {
+			if call.Common().StaticCallee() != get || len(call.Common().Args) != 2 {
+				continue
+			}
+			n++
+			r := roleOf(call.Common().Args[1], fn, 0)
+			key := fmt.Sprintf("%s ARP lookup #%d", shortFn(fn), n)
+			switch r {
+			case "peer", "gateway":
+				c.Ok(rule, key, p.InstrPos(call), "looked up for the "+r+" address")
+			case "local":
+				c.Violate(rule, key, p.InstrPos(call), "the hardware address for a reply is looked up for the connection's LOCAL address ("+RenderN(call.Common().Args[1], 3)+") instead of the peer's: with a default route every reply to a neighbour on the local segment goes to the gateway's hardware address (without one nothing is sent at all), so the client never sees the SYN-ACK")
+			default:
+				c.Undecided(rule, key, p.InstrPos(call), "the address the ARP cache is asked for cannot be traced to the peer's address, a gateway or the local address: "+RenderN(call.Common().Args[1], 3))
+			}
+		}
+	}
+	c.Floor(rule, 2, "send: direct entry and gateway entry")
+}
